@@ -227,6 +227,15 @@ static void build_pools() {
         doms.push_back("a_b." + string(64, 'a') + ".com"); doms.push_back("a_b." + string(63, 'a') + ".com");
         { string d = "a_b."; while (d.size() < 250) d += "abcdefghi."; doms.push_back(d + "com"); }
     }
+    {   // many short internationalised labels: the converted name is much longer than its spelling (every label gets its own
+        // "xn--" and digits) - buffers sized from the input length plus some slack are too small exactly here
+        const char *one[] = { "\xd1\x8f", "\xc3\xbc", "\xe4\xbe\x8b", "\xce\xb1" };
+        for (int n : { 6, 11, 12, 13, 16, 24, 30, 40 }) for (int w = 0; w < 4; w++) {
+            if ((n + w) % 2) continue;
+            string d; for (int i = 0; i < n; i++) { d += one[w]; d += "."; }
+            doms.push_back(d + "\xd1\x80\xd1\x84"); doms.push_back(d + "com");
+        }
+    }
     {   // a > 253 octet domain and an exactly-253 one
         string d; while (d.size() < 250) d += "abcdefghi.";
         doms.push_back(d + "com"); doms.push_back(d.substr(0, 240) + "abcdefghi.com");
